@@ -6,6 +6,7 @@ CONSTANTS
   Design = "asfound"
   MaxOps = 40
   NObj = 2
+  EMCopy = "deep"
   MaxEvals = 4
 SPECIFICATION PU_Spec
 VIEW PU_View
@@ -15,3 +16,4 @@ INVARIANT RunIsConsistent
 INVARIANT NoSharing
 INVARIANT ObjectsDosed
 PROPERTY Isolation
+PROPERTY EMIsolation
